@@ -1,9 +1,13 @@
 (* Extraction of the template acceptance model (C01, C02, C19). ExtrOcamlBasic only. *)
 From Coq Require Import Extraction ExtrOcamlBasic List NArith ZArith String.
-Require Import OJD.Base OJD.Lexer OJD.Json OJD.Schema OJD.Generated OJD.Charsets OJD.CreateJob OJD.Parse OJD.Validators OJD.Accept.
+Require Import OJD.Base OJD.Lexer OJD.Json OJD.Schema OJD.Generated OJD.Charsets OJD.CreateJob OJD.Parse OJD.Validators OJD.Accept OJD.AcceptSpec.
 Extraction Language OCaml.
 Definition accept_job (classify : N -> cclass) (j : json) : outcome bool :=
   match decode_job classify j with Ok _ => Ok true | Raise ValueError => Ok false | Raise e => Raise e end.
 Definition accept_env (classify : N -> cclass) (j : json) : outcome bool :=
   match decode_env classify j with Ok _ => Ok true | Raise ValueError => Ok false | Raise e => Raise e end.
-Extraction "Model.ml" exn_eqb ascii_ok ascii_class accept_job accept_env cs_ok sumZ.
+Definition accept_job_spec (classify : N -> cclass) (j : json) : outcome bool :=
+  match spec_decode_job classify j with Ok _ => Ok true | Raise ValueError => Ok false | Raise e => Raise e end.
+Definition accept_env_spec (classify : N -> cclass) (j : json) : outcome bool :=
+  match spec_decode_env classify j with Ok _ => Ok true | Raise ValueError => Ok false | Raise e => Raise e end.
+Extraction "Model.ml" exn_eqb ascii_ok ascii_class accept_job accept_env accept_job_spec accept_env_spec cs_ok sumZ.
